@@ -29,6 +29,14 @@ def prove(pid, rep, thorough_extra=True):
     except core.Broken as b:
         rep.broken = b
         return info
+    if os.environ.get("VERIF_DEV_SKIP_PROOF"):
+        # development aid only (never used by a registered command): rebuild the driver, skip the proof audit
+        try:
+            core.lake_build(["chessdrv"])
+        except core.Broken as b:
+            rep.broken = b
+        info["theorems"] = {"(proof step skipped: VERIF_DEV_SKIP_PROOF)": []}
+        return info
     try:
         core.lake_build([f"Chess.Props.{pid}", "chessdrv"])
         info["theorems"] = core.audit_props(pid)
